@@ -11,6 +11,41 @@ TRUSTED_BASE = [
 ]
 
 
+UNSPANNED_OK = ("Missing field", "Unsupported shape", "Unions are not supported", "attrs_fail")
+
+
+def c03_judge_outer(c, a):
+    """element-level receivers: a spanned leaf lies inside one of the element's attributes; only
+    root absences, whole-element verdicts and errors of the user's `attrs` function are unspanned"""
+    spans = []
+
+    def walk(x):
+        if isinstance(x, list):
+            if x and x[0] == "attr":
+                try:
+                    spans.append((int(x[-2]), int(x[-1])))
+                except Exception:
+                    pass
+            for y in x:
+                walk(y)
+    walk(c[2])
+    try:
+        flat = [x for x in a[1][1:] if isinstance(x, list) and x and x[0] == "flat"][0]
+    except Exception:
+        return None
+    for r in flat[1:]:
+        msg = r[1][1] if isinstance(r[1], tuple) else str(r[1])
+        sp = r[2]
+        if sp == "none":
+            if not msg.startswith(UNSPANNED_OK):
+                return "an error leaf about an attribute item carries no usable span: " + msg[:80]
+            continue
+        a0, b0 = int(sp[1]), int(sp[2])
+        if not any(lo <= a0 <= b0 <= hi for lo, hi in spans):
+            return "an error leaf's span (%d,%d) lies in none of the element's attributes: %s" % (a0, b0, msg[:80])
+    return None
+
+
 def c03_judge(case, ans):
     """C03 on the implementation's own answer: every error leaf of a conversion of one item carries
     a span lying inside that item (the harness converts through `from_meta(&item)`, so even root
@@ -21,6 +56,8 @@ def c03_judge(case, ans):
         c, a = sexp.parse(case), sexp.parse(ans)
     except Exception:
         return None
+    if isinstance(c, list) and c and c[0] == "outer":
+        return c03_judge_outer(c, a)
     if not (isinstance(c, list) and c and c[0] in ("recv", "fm") and len(c) >= 3):
         return None
     entry = c[2]
@@ -83,6 +120,9 @@ CONFIG = {
             {"name": "c02", "n": {"quick": 12000, "thorough": 240000}, "trivial": lambda case, ans: not ans.startswith("(err")},
             # list bodies that are not meta syntax at some depth
             {"name": "c07m", "n": {"quick": 8000, "thorough": 160000}, "trivial": lambda case, ans: not ans.startswith("(err")},
+            # element-level receivers: mistakes and malformed attributes on derive inputs, fields, variants, type params
+            {"name": "c16m", "n": {"quick": 4000, "thorough": 80000}, "trivial": lambda case, ans: not ans.startswith("(err")},
+            {"name": "c07o", "n": {"quick": 4000, "thorough": 80000}, "trivial": lambda case, ans: not ans.startswith("(err")},
         ],
         "impl_judge": c03_judge,
         "rule": "error histories with with_span applied at random nodes (bundles and leaves) in random order; non-trivial = at least one with_span in the history; distinct by case text",
